@@ -21,6 +21,8 @@ def rows():
         if len(summ) > 140:
             summ = summ[:140] + "…"
         det = " ".join(m.get("detected_by_checks", [])) or "— (see text)"
+        if m.get("tier") == "thorough":
+            det += " (thorough tier only)"
         first = m.get("first_evaluation_detected_by")
         if first is not None and first != m.get("detected_by_checks"):
             det += " (first: %s)" % (" ".join(first) or "missed")
